@@ -20,11 +20,16 @@ SKELETONS = [
     ("youtube", "https://www.youtube.com/redirect?q=", "&v=1"),
     ("q-google", "https://www.google.com/url?q=", ""),
     ("lookalike-key", "http://x.fr/?curl=", "&u"),
+    ("nested-amp", "http://x.fr/?url=http%3A%2F%2Fy.fr%2Fgo%26u%3D", "&z=1"),
+    ("nested-path", "https://l.x.fr/l.php?next=%2Fr%26goto%3D", ""),
+    ("path-key", "http://x.fr/r/url=", ""),
+    ("hyphen-key", "http://x.fr/?short-url=", "&z"),
+    ("fragment-key", "http://x.fr/r#next=", ""),
     ("growth", "http://x.fr/r?u=//%23", ""),
     ("growth-query", "http://x.fr/r?u=/", "%3Fu%3D/"),
 ]
 BOUNDS = {
-    "quick": "18 redirect skeletons (redirect keys in query, before the path, in userinfo / host / path / fragment position, nested 2 levels with matching escaping, self-referential, AMP and Marfeel caches, youtube, google, look-alike key) x every hole string of length 0..2 (0..3 for the free, query, before-path, nested, self, amp-cache and google skeletons) over all code points; recursive and single-step",
+    "quick": "23 redirect skeletons (redirect keys in query, before the path, in userinfo / host / path / fragment position, nested 2 levels with matching escaping, self-referential, AMP and Marfeel caches, youtube, google, look-alike key) x every hole string of length 0..2 (0..3 for the free, query, before-path, nested, self, amp-cache and google skeletons) over all code points; recursive and single-step",
     "thorough": "holes of length 0..3 (0..4 for the skeletons listed above, free: 0..5)",
 }
 STUBS = ["stdlib urllib.parse.unquote and urljoin interpreted from source", "RecursionError modelled at interpreted call depth 48; a counterexample is only reported when the native call raises RecursionError too"]
@@ -42,7 +47,7 @@ def red(st, skel, n):
     run_prop(st, "step_returns_input_or_embedded_target", S.step_returns_input_or_embedded_target, u)
 
 
-N3 = ("growth", "free", "query-u", "query-url", "before-path", "nested", "self", "amp-cache", "q-google")
+N3 = ("free", "query-u", "self")
 
 
 def items(tier):
